@@ -49,6 +49,90 @@ def harvest(nshards: int, per: int, seed: int) -> list[list[str]]:
     return out
 
 
+GEN_STATEMENTS = [
+    ("", "ALTER TABLE t ALTER COLUMN c SET DEFAULT 3"),
+    ("", "SELECT a, TRY(b)"),
+    ("", "SELECT a, TRY(b), TRY(c), TRY(d), TRY(e)"),
+    ("", "SELECT DISTINCT ON (a) a, b FROM t"),
+    ("", "SELECT a FROM t FOR UPDATE"),
+    ("", "SELECT * FROM t TABLESAMPLE (10 ROWS)"),
+    ("", "SELECT a FROM t QUALIFY ROW_NUMBER() OVER (ORDER BY b) = 1"),
+    ("", "SELECT a ILIKE ANY (b) FROM t"),
+    ("", "SELECT * FROM a NATURAL JOIN b"),
+    ("", "CREATE TABLE t (a INT) WITH (x=1)"),
+    ("", "DROP TABLE t CASCADE CONSTRAINTS"),
+    ("", "SELECT a FROM t ORDER BY a NULLS FIRST"),
+    ("", "SELECT JSON_EXTRACT(a, '$.b[*].c')"),
+    ("", "SELECT ARRAY_AGG(a ORDER BY b) FROM t"),
+    ("", "CREATE TABLE t (a INT COMMENT 'x', b INT GENERATED ALWAYS AS IDENTITY)"),
+    ("postgres", "SELECT a FROM t WHERE b ~* 'x'"),
+    ("snowflake", "SELECT a:b FROM t AT (TIMESTAMP => x)"),
+    ("bigquery", "SELECT * FROM UNNEST([1, 2]) AS x WITH OFFSET"),
+    ("duckdb", "SELECT * EXCLUDE (a) REPLACE (b AS c) FROM t"),
+    ("mysql", "SELECT a FROM t FORCE INDEX (i)"),
+]
+
+
+def gen_pairs(tier: str, seed: int) -> list[list[list[str]]]:
+    """(read dialect, target dialect, statement) triples for which the working tree's generator of the target dialect reports
+    an unsupported construct at SOME level (WARN logs, RAISE or IMMEDIATE raises) -- harvested from the code on every run."""
+    import logging
+
+    import sqlglot
+    from sqlglot.dialects.dialect import Dialects
+    from sqlglot.errors import ErrorLevel, UnsupportedError
+
+    class _H(logging.Handler):
+        def __init__(self):
+            super().__init__()
+            self.n = 0
+
+        def emit(self, record):
+            self.n += 1
+
+    lg = logging.getLogger("sqlglot")
+    h = _H()
+    old_level, old_prop = lg.level, lg.propagate
+    lg.addHandler(h)
+    lg.setLevel(logging.WARNING)
+    lg.propagate = False
+    per_dialect = 2 if tier == "quick" else 5
+    pairs = []
+    try:
+        for d in Dialects:
+            w = d.value
+            got = 0
+            order = list(GEN_STATEMENTS)
+            order = order[seed % len(order):] + order[: seed % len(order)] if tier == "quick" and w != "athena" else order
+            for read, sql in order:
+                try:
+                    tree = sqlglot.parse_one(sql, read=read or None)
+                except Exception:
+                    continue
+                hit = False
+                for L in (ErrorLevel.WARN, ErrorLevel.RAISE, ErrorLevel.IMMEDIATE):
+                    h.n = 0
+                    try:
+                        tree.sql(dialect=w or None, unsupported_level=L)
+                    except UnsupportedError:
+                        hit = True
+                    except Exception:
+                        hit = False
+                        break
+                    hit = hit or h.n > 0
+                if hit:
+                    pairs.append([read, w, sql])
+                    got += 1
+                    if got >= per_dialect:
+                        break
+    finally:
+        lg.removeHandler(h)
+        lg.setLevel(old_level)
+        lg.propagate = old_prop
+    size = 6
+    return [pairs[i:i + size] for i in range(0, len(pairs), size)]
+
+
 def obligations(tier: str, seed: int):
     t = 200 if tier == "quick" else 600
     units = [
@@ -66,10 +150,19 @@ def obligations(tier: str, seed: int):
                         cond_timeout=t * 2, path_timeout=30,
                         desc={"unit": "Parser.parse under all four levels", "corpus": shard,
                               "symbolic": "input index into this shard, max_errors 1..4"}, group=f"parse-harvest-{i}"))
+    for i, shard in enumerate(gen_pairs(tier, seed)):
+        obls.append(Obl(key=f"genx-{i}", harness="h_errlevel.py", params={"gpairs": shard}, func="prop_genx", twin="twin_genx",
+                        cond_timeout=t * 2, path_timeout=30,
+                        desc={"unit": "Generator.generate of the target dialect (sub-generators included) under all four unsupported levels",
+                              "pairs": shard, "symbolic": "pair index into this shard, unsupported_level in 4, max_unsupported 0..3"},
+                        group=f"genx-{i}"))
     for name, unit, what in units:
         obls.append(Obl(key=name, harness="h_errlevel.py", params={}, func="prop_" + name, twin="twin_" + name,
                         cond_timeout=t if name != "parse" else t * 2, path_timeout=30, desc={"unit": unit, "symbolic": what}))
     bounds = {u[0]: u[2] for u in units}
+    bounds["genx"] = ("(read dialect, target dialect, statement) triples harvested from the working tree: up to 2 (quick) / 5 (thorough) "
+                      "statements of props/C14.py GEN_STATEMENTS per target dialect for which its generator reports an unsupported construct; "
+                      "pair index, unsupported_level in 4 and max_unsupported 0..3 symbolic; text and messages are related to the IGNORE / WARN runs")
     bounds["outside"] = "the four-run relation on arbitrary INPUT TEXT (needs the parser on symbolic text): only the enumerated corpus is covered"
     return obls, bounds
 
